@@ -31,8 +31,9 @@ TheConfigs ==
 
 NestSmall == {<<>>, <<1>>, <<2>>, <<0>>, <<1, 1>>, <<2, 1>>, <<0, 2>>, <<1, 0>>}
 NestAll(k) == UNION {[1..n -> 0..k] : n \in Ns}
-NestThorough == NestAll(2)
+NestThorough == NestAll(2) \cup {<<3>>, <<3, 1>>, <<1, 3>>, <<3, 3>>, <<0, 3>>}    \* 3 nested buffers: oldest # newest-but-one
 NestLive == {<<>>, <<1>>, <<2, 1>>, <<0, 2>>}
+NestLive3 == NestLive \cup {<<1, 2, 1>>, <<2, 0, 1>>}
 BoundsLive == {<<1, 1>>}
 BoundsSmall == {<<1, 1>>, <<2, 2>>}
 BoundsAll == {<<1, 1>>, <<1, 2>>, <<2, 1>>, <<2, 2>>, <<3, 3>>}
